@@ -711,3 +711,17 @@ def c18_5(ctx: Ctx) -> RuleResult:
             "" if ok else "no pass-through wrap validator", construct="EnOptConfig pass-through",
             where=None if site else f"{c.module.relpath}:{c.node.lineno}", fname=None if site else c.qualname)
     return res
+
+
+@rule(P)
+def c18_6(ctx: Ctx) -> RuleResult:
+    """Shared with C10.4: a configuration that asks for relative perturbations on a variable without two finite
+    bounds is inconsistent and has to be rejected (both sides are tested)."""
+    from .c10 import c10_4
+
+    r = c10_4(ctx)
+    r.instances = [i for i in r.instances if "finite" in i.construct or "finite" in i.obligation]
+    for i in r.instances:
+        i.rule = "C18.6"
+    r.rule, r.title, r.floor = "C18.6", "relative perturbations are rejected unless the lower and the upper bound of the variable are finite", 1
+    return r
